@@ -32,7 +32,7 @@ PARALLEL = 12
 
 def groups(tier):
     t = ["C03"]
-    return mu_groups(tags=t) + mu_lemmas(tags=t) + sem_groups(tags=t) + once_groups(tags=t) + cv_groups(tags=t) + cnt_groups(tags=t) + note_groups(tags=t) + note_tree_groups(tags=t)
+    return mu_groups(tags=t, tier=tier) + mu_lemmas(tags=t) + sem_groups(tags=t) + once_groups(tags=t) + cv_groups(tags=t) + cnt_groups(tags=t) + note_groups(tags=t) + note_tree_groups(tags=t)
 
 
 def extra_checks(tier):
